@@ -75,7 +75,10 @@ def impl(case):
 
     def call(a, b):
         try:
-            r = pywhy_nx.m_separated(G, set(a), set(b), set(Z), **kwn)
+            # a set of nodes may be handed over as any set type; with labels that contain other labels a frozenset
+            # of nodes can be EQUAL to a node label and still means its members
+            wrap = frozenset if case.get("fam") == "nested" else set
+            r = pywhy_nx.m_separated(G, wrap(a), wrap(b), wrap(Z), **kwn)
             return "T" if r is True else ("F" if r is False else "bad:" + repr(r))
         except nx.NetworkXError as e:
             return "err:cyclic" if "acyclic" in str(e) else "err:nx"
@@ -139,6 +142,20 @@ def gen_cases(ctx):
             # the edge-type names are parameters of m_separated: non-default names must behave the same
             case["names"] = {"D": "arrow", "B": "confounded", "U": "line", "C": "circle"}
         yield case
+    # (iv) a few LARGE structured inputs (deep recursion, quadratic tables, fixed-width counters only show here);
+    # the verified model is still the oracle (about 2 s for 600 nodes)
+    N = 600
+    chain = [(i, i + 1) for i in range(N - 1)]
+    yield {"g": C.g_new(N, D=chain), "X": [0], "Y": [N - 1], "Z": [], "src": "big", "fam": "int"}
+    yield {"g": C.g_new(N, D=chain), "X": [0], "Y": [N - 1], "Z": [N // 2], "src": "big", "fam": "str"}
+    # x -> c <- y with the collider opened only by a descendant 500 steps below it
+    deep = [(0, 2), (1, 2)] + [(i, i + 1) for i in range(2, 502)]
+    yield {"g": C.g_new(503, D=deep), "X": [0], "Y": [1], "Z": [502], "src": "big", "fam": "int"}
+    yield {"g": C.g_new(503, D=deep), "X": [1], "Y": [0], "Z": [], "src": "big", "fam": "tuple"}
+    # 150 common parents of two nodes joined by a bidirected edge
+    par = [(i, 150) for i in range(150)] + [(i, 151) for i in range(150)]
+    yield {"g": C.g_new(152, D=par, B=[(150, 151)]), "X": [150], "Y": [151], "Z": list(range(150)), "src": "big", "fam": "int"}
+    yield {"g": C.g_new(152, D=par), "X": [150], "Y": [151], "Z": list(range(149)), "src": "big", "fam": "bigint"}
     # (iii) long connecting paths by construction (several colliders opened by Z or by a descendant in Z,
     # undirected and bidirected stretches between them) and their one-node perturbations
     for i in range(4000 if tier == "quick" else 40000):
@@ -205,8 +222,9 @@ def run(ctx):
     if bad:
         drv = C.Driver()
         try:
+            bad.sort(key=lambda cd: cd[0]["g"]["n"] > 40)      # report a small case first if there is one
             case, (kind, detail) = bad[0]
-            small = shrink_case(case, lambda c: fails(c, drv))
+            small = case if case["g"]["n"] > 40 else shrink_case(case, lambda c: fails(c, drv))
             got = impl(small)
             out.violation(small, {"kind": kind, "detail": detail, "impl": got, "model": drv.ask(line(small)),
                                   "lean_request": line(small), "original_case": case,
